@@ -314,6 +314,14 @@ func (w *World) config(kind, store int) *mast.RemoteConfig {
 		cfg.ValuesLike = nil
 		cfg.UnmarshalerUsesRegisteredTypes = true
 	}
+	if w.Opts["desc"] == "1" {
+		// a caller-supplied key order that is the reverse of the default one: trees of this history are built under it
+		base := mast.DefaultKeyCompare(json.Marshal)
+		cfg.KeyCompare = func(a, b interface{}) (int, error) {
+			c, err := base(a, b)
+			return -c, err
+		}
+	}
 	if w.Opts["callbacks"] == "1" {
 		// caller-supplied callbacks with the default meaning: the code paths taken when the configuration
 		// carries its own key order and marshalers
@@ -797,8 +805,12 @@ func (w *World) Exec(line string) (res Result) {
 				return 0, nil
 			}
 		}
+		if len(toks) > 5 && toks[5] == "default" {
+			// a reader that configures no key order at all: the default order applies
+			cfg.KeyCompare = nil
+		}
 		// only the sign of a KeyCompare result is meaningful: answer like a subtraction-style comparator would
-		{
+		if cfg.KeyCompare != nil {
 			inner := cfg.KeyCompare
 			cfg.KeyCompare = func(a, b interface{}) (int, error) {
 				c, err := inner(a, b)
